@@ -134,9 +134,9 @@ structure StoreOK (st : State) (s : Store) : Prop where
   macroOnlyValue : ∀ kv ∈ s, kv.1.2 = State.macroSel → ∀ pv ∈ kv.2, pv.1 = "value"
   bindable : ∀ kv ∈ s, kv.1.2 ≠ State.macroSel → ∃ e, st.registry.get? kv.1.2 = some e ∧ kv.1.2 ≠ [] ∧
       (e.cfg.isMethod = true → 2 ≤ kv.1.2.length) ∧
-      ∀ pv ∈ kv.2, e.cfg.mightHave pv.1 = true ∧ e.cfg.listed pv.1 = true
+      ∀ pv ∈ kv.2, e.cfg.byKeyword pv.1 = true ∧ e.cfg.listed pv.1 = true
   macroReg : ∃ e, st.registry.getMatch State.macroSel = .one State.macroSel e ∧ e.cfg.isMethod = false ∧
-      e.cfg.mightHave "value" = true ∧ e.cfg.listed "value" = true
+      e.cfg.byKeyword "value" = true ∧ e.cfg.listed "value" = true
 
 theorem lookup_of_mem {κ α : Type} [DecidableEq κ] : ∀ (l : AList κ α) (k : κ) (v : α),
     (AList.keys l).Nodup → (k, v) ∈ l → lookup k l = some v
@@ -355,8 +355,8 @@ structure RegOK (st : State) : Prop where
   inv : Inv st.registry
   nonempty : ∀ k ∈ st.registry.keys, k ≠ []
   macroReg : ∃ e, st.registry.getMatch State.macroSel = .one State.macroSel e ∧ e.cfg.isMethod = false ∧
-      e.cfg.listed "value" = true ∧ ∀ p, e.cfg.mightHave p = true ↔ p = "value"
-  constReg : ∀ e, st.registry.get? State.constSel = some e → ∀ p, e.cfg.mightHave p = false
+      e.cfg.listed "value" = true ∧ ∀ p, e.cfg.byKeyword p = true ↔ p = "value"
+  constReg : ∀ e, st.registry.get? State.constSel = some e → ∀ p, e.cfg.byKeyword p = false
 
 theorem storeOK_empty (st : State) (hr : RegOK st) : StoreOK st [] where
   nodup := by simp [AList.keys]
@@ -411,7 +411,7 @@ theorem storeOK_bind (st st' : State) (hr : RegOK st) (hok : StoreOK st st.confi
               rw [hgm] at hspec
               obtain ⟨hmat, _, hget⟩ := hspec
               obtain ⟨hkeys, hlen⟩ := mem_keys_of_matches st.registry k.sel full' hmat
-              have hmh' : e.cfg.mightHave k.arg = true := by simpa using hmh
+              have hmh' : e.cfg.byKeyword k.arg = true := by simpa using hmh
               have hli' : e.cfg.listed k.arg = true := by simpa using hli
               have hmeth : e.cfg.isMethod = true → 2 ≤ full'.length := by
                 intro hm
@@ -551,14 +551,14 @@ theorem regOK_init : RegOK initState where
   macroReg := by
     refine ⟨macroEntry, by rfl, rfl, rfl, ?_⟩
     intro p
-    simp [macroEntry, Cfgable.mightHave, Sig.mightHave, Sig.args, Sig.kwonlyNames]
+    simp [macroEntry, Cfgable.byKeyword, Sig.byKeyword, Sig.kwNames, Sig.args, Sig.kwonlyNames]
   constReg := by
     intro e he p
     have h2 : initState.registry.get? State.constSel = some constEntry := by rfl
     rw [h2] at he
     have : e = constEntry := (Option.some.inj he).symm
     subst this
-    simp [constEntry, Cfgable.mightHave, Sig.mightHave, Sig.args, Sig.kwonlyNames]
+    simp [constEntry, Cfgable.byKeyword, Sig.byKeyword, Sig.kwNames, Sig.args, Sig.kwonlyNames]
 
 /-- two macro bindings under different spellings of `gin.macro`; the second value has no literal form -/
 def demoBinds : List (Key × Val) :=
